@@ -616,6 +616,19 @@ fn shape_problems(v: &Value, out: &mut Vec<String>) {
                     out.push("a spline has a decreasing knot sequence".to_string());
                 }
             }
+            // currency codes (inside "pair" and "currencies") are three lower-case bytes; the
+            // two codes of a pair differ
+            let code_ok = |c: &Value| c.get("name").and_then(|n| n.as_str()).map_or(false, |s| s.len() == 3 && s == s.to_lowercase());
+            if let Some(Value::Array(pair)) = o.get("pair") {
+                if pair.len() != 2 || !pair.iter().all(code_ok) || pair[0] == pair[1] {
+                    out.push(format!("a currency pair is not two distinct 3-letter lower-case codes: {}", serde_json::to_string(pair).unwrap_or_default()));
+                }
+            }
+            if let Some(Value::Array(cs)) = o.get("currencies") {
+                if !cs.iter().all(code_ok) {
+                    out.push(format!("a market lists a malformed currency code: {}", serde_json::to_string(cs).unwrap_or_default()));
+                }
+            }
             o.values().for_each(|x| shape_problems(x, out));
         }
         Value::Array(a) => a.iter().for_each(|x| shape_problems(x, out)),
@@ -1042,7 +1055,7 @@ impl C20 {
                             shape_problems(&val, &mut problems);
                         }
                         if let Some(p) = problems.first() {
-                            let which = if p.contains("spline") { "spline" } else { "number" };
+                            let which = if p.contains("spline") { "spline" } else if p.contains("currenc") { "currency code" } else { "number" };
                             v.fail(format!("from_json | loaded {} breaks its shape invariant", which), format!("{} (kind {:?}, document {})", p, kind, text.chars().take(600).collect::<String>()));
                         }
                     }
@@ -1099,7 +1112,7 @@ impl C20 {
                             shape_problems(&val, &mut problems);
                         }
                         if let Some(p) = problems.first() {
-                            let which = if p.contains("spline") { "spline" } else { "number" };
+                            let which = if p.contains("spline") { "spline" } else if p.contains("currenc") { "currency code" } else { "number" };
                             v.fail(
                                 format!("from_json | loaded {} breaks its shape invariant", which),
                                 format!("{} (kind {:?}, mutations {:?}, document {})", p, kind, applied, mutated.chars().take(600).collect::<String>()),
